@@ -2,7 +2,7 @@
 from .. import decode as dec
 from .. import oracles as O
 from ..common import enc
-from ..gen_subst import contains_nan, gen_pair
+from ..gen_subst import contains_nan, gen_pair, is_plain
 from ..gen_value import Unsat, perturbations, witness
 from ..ref import UNJUDGED, accepts
 from ..spec import nontrivial, shape, show
@@ -19,31 +19,61 @@ TIERS = {"quick": dict(shards=16, cases=5000), "thorough": dict(shards=16, cases
 
 
 def run_case(ctx, rng, case):
-    from d42 import substitute
-    from d42.substitution.errors import SubstitutionError
-    spec, v, vkind = gen_pair(rng, hostile=False)
-    if contains_nan(v):
-        return
+    from ..gen_spec import gen_spec
+    from ..gen_subst import PROF, partialise
+    spec = gen_spec(rng, PROF)
     schema = O.try_build(ctx, spec)
     if schema is None:
         return
+    # the property quantifies over every plain v for which S % v succeeds - conforming or not:
+    # witnesses, partial dicts, and one-step perturbations of witnesses (most are refused; the few that are
+    # taken although they do not conform are where a widening shows)
+    cands = []
+    try:
+        w = witness(spec, rng, rng.choice(("rand", "min", "max")))
+        cands.append((w, "complete"))
+        cands.append((partialise(spec, w, rng, rng.choice((0.2, 0.5, 0.9))), "partial"))
+        ps = list(perturbations(w, rng, spec))
+        k = 14 if ctx.tier == "quick" else 40
+        if len(ps) > k:
+            ps = rng.sample(ps, k)
+        cands.extend((pv, "perturbed") for pv, _ in ps)
+    except Unsat:
+        cands.append((rng.choice((None, 0, "", [], {}, [0], {"a": 1})), "unrelated"))
+    done = 0
+    for v, vkind in cands:
+        if contains_nan(v) or not is_plain(v):
+            continue
+        if done >= 4:
+            break
+        if one_value(ctx, rng, case, spec, schema, v, vkind):
+            done += 1
+
+
+def one_value(ctx, rng, case, spec, schema, v, vkind):
+    from d42 import substitute
+    from d42.substitution.errors import SubstitutionError
+    ctx.count("substitute_calls")
     try:
         r = substitute(schema, v)
     except SubstitutionError:
         ctx.count("refused")
-        return
+        return False
+    except RecursionError:
+        return False
     except Exception:
         ctx.count("substitute_raised(C12)")
-        return
+        return False
     ctx.distinct([shape(spec), vkind], nontrivial(spec))
     ctx.count("substitutions")
+    ctx.table("substituted_value_kinds", vkind)
     info = {"spec": show(spec), "repr": repr(schema)[:400], "value": enc(v), "vkind": vkind}
     try:
         info["result"] = repr(r)[:400]
     except Exception:
         ctx.count("result_repr_raised(C12)")
-        return
-    if case % 500 == 0:
+        return True
+    if case % 500 == 0 and vkind == "complete":
         ctx.sample({"repr": repr(schema)[:300], "value": enc(v), "result": info["result"][:300]})
     try:
         rspec = dec.inherit_examples(dec.decode(r), spec)
@@ -63,7 +93,7 @@ def run_case(ctx, rng, case):
                 break
     seen_accept = 0
     cands = list(bases)
-    cap = 50 if ctx.tier == "quick" else 120
+    cap = 40 if ctx.tier == "quick" else 100
     for origin, b in bases[:5]:
         # perturbations aimed at the constraints of S (spec guides `aimed`) and of the result
         for guide in (spec, rspec):
@@ -101,6 +131,7 @@ def run_case(ctx, rng, case):
                 ctx.count("reference_crosschecks")
     if seen_accept:
         ctx.count("cases_with_accepting_w")
+    return True
 
 
 def required(m, tier):
